@@ -127,6 +127,10 @@ pub const OPENERS: &[(&str, &str)] = &[
     ("if a then if b then ", ""),
     ("a.b(c, ", ")"),
     ("if x then begin end else ", ""),
+    // directives nested inside the expression of a conditional directive
+    ("{$if ", "}"),
+    ("(*$if ", "*)"),
+    ("{$if A}{$elseif {$if ", "}}"),
 ];
 
 /// A nest of `depth` copies of one construct (for the work-scaling oracle).
